@@ -93,9 +93,19 @@ def jv(v):
     return v
 
 
-def one(acc, seq, bo, wo):
+from harness.repo import DebugLogging  # noqa: E402
+
+
+def one(acc, seq, bo, wo, debug=False):
+    if debug:
+        with DebugLogging():
+            return _one(acc, seq, bo, wo, dict(debug_logging=True))
+    return _one(acc, seq, bo, wo, {})
+
+
+def _one(acc, seq, bo, wo, extra):
     acc.inc('evaluations')
-    wit = dict(seq=[(t, jv(v)) for t, v in seq], byteorder=bo, wordorder=wo)
+    wit = dict(seq=[(t, jv(v)) for t, v in seq], byteorder=bo, wordorder=wo, **extra)
     tag = bo[0] + wo[0]
     b = BinaryPayloadBuilder(byteorder=ORD[bo], wordorder=ORD[wo])
     try:
@@ -217,6 +227,8 @@ def shard(args):
         orders = ORDERS if (i // n) % 2 == 0 else list(reversed(ORDERS))
         for bo, wo in orders:
             one(acc, seq, bo, wo)
+        if len(seq) <= 2:
+            one(acc, seq, orders[0][0], orders[0][1], debug=True)       # ... and with the library's debug logging switched on
         acc.add('nontrivial', tuple((t, jv(v) if not isinstance(v, list) else tuple(v)) for t, v in seq))
         if not acc.samples and len(seq) == 3:
             acc.sample(dict(seq=[(t, jv(v)) for t, v in seq], image_big_big=rp.image(seq, 'big', 'big').hex()))
@@ -246,5 +258,5 @@ def replay(w):
         elif t == 'str':
             v = v[5:] if v.startswith('text:') else bytes.fromhex(v)
         seq.append((t, v))
-    one(acc, tuple(seq), w['byteorder'], w['wordorder'])
+    one(acc, tuple(seq), w['byteorder'], w['wordorder'], debug=bool(w.get('debug_logging')))
     return bool(acc.violations), '\n'.join('%s: %s' % (v['sig'], v['msg']) for v in acc.violations) or 'no violation'
